@@ -32,7 +32,7 @@ theorem listLoop_step_bare {f : Nat} {t : List Char} {i : Nat} {c : Char} {more 
   simp [h0, h1, h2, h3, h4]
 
 theorem listLoop_skip_ws : ∀ (w : List Char), AllWs w → ∀ (fuel : Nat) (t : List Char) (i : Nat)
-    (more content : List Char) (cur : List GVal), t.drop i = w ++ more → t.length + 2 ≤ fuel + i →
+    (more content : List Char) (cur : List GVal), t.drop i = w ++ more → 2 * t.length + 2 ≤ fuel + 2 * i →
     listLoop fuel t i content cur = listLoop (fuel - w.length) t (i + w.length) content cur := by
   intro w
   induction w with
@@ -49,7 +49,7 @@ theorem listLoop_skip_ws : ∀ (w : List Char), AllWs w → ∀ (fuel : Nat) (t 
 
 theorem listLoop_scan_bare : ∀ (s : List Char), (∀ c ∈ s, isBareChar c = true) →
     ∀ (fuel : Nat) (t : List Char) (i : Nat) (more content : List Char) (cur : List GVal),
-    t.drop i = s ++ more → t.length + 2 ≤ fuel + i →
+    t.drop i = s ++ more → 2 * t.length + 2 ≤ fuel + 2 * i →
     listLoop fuel t i content cur = listLoop (fuel - s.length) t (i + s.length) (content ++ s) cur := by
   intro s
   induction s with
@@ -297,5 +297,61 @@ theorem matchInterval_none_bare (s X : List Char) (hne : s ≠ []) (hm : s.head?
   · apply matchInterval_none_of_matchInt
     simp only [List.cons_append]
     exact matchInt_none_of_head _ hc0 (by simpa using hd)
+
+end GT.Gap
+
+namespace GT.Gap
+
+theorem matchInterval_none_head {c : Char} (r : List Char) (h1 : c ≠ '-') (h2 : isDigit c = false) :
+    matchInterval (c :: r) = none :=
+  matchInterval_none_of_matchInt (matchInt_none_of_head r h1 h2)
+
+theorem matchInterval_none_ws_then {w : List Char} (hw : AllWs w) {c : Char} (r : List Char)
+    (h1 : c ≠ '-') (h2 : isDigit c = false) : matchInterval (w ++ c :: r) = none := by
+  cases w with
+  | nil => exact matchInterval_none_head r h1 h2
+  | cons a w =>
+    obtain ⟨g1, g2, -⟩ := ws_not_digit (hw a (by simp))
+    exact matchInterval_none_head _ g2 g1
+
+/-- the body of a well-formed list is never mistaken for the interval syntax -/
+theorem matchInterval_none_body (items : SynItems) (hw : items.WF) (post : List Char)
+    (hp : AllWs post) (more : List Char) :
+    matchInterval (items.render ++ (post ++ ']' :: more)) = none := by
+  cases items with
+  | nil =>
+    simp only [SynItems.render, List.nil_append]
+    exact matchInterval_none_ws_then hp more (by decide) (by decide)
+  | cons v after rest =>
+    simp only [SynItems.WF] at hw
+    obtain ⟨hv, ha, hr⟩ := hw
+    simp only [SynItems.render, List.append_assoc]
+    cases v with
+    | bare pre s =>
+      simp only [Syn.WF] at hv
+      obtain ⟨hpre, hne, hbare, hminus, hlit⟩ := hv
+      simp only [Syn.render, List.append_assoc]
+      cases pre with
+      | cons a pre =>
+        obtain ⟨g1, g2, -⟩ := ws_not_digit (hpre a (by simp))
+        exact matchInterval_none_head _ g2 g1
+      | nil =>
+        simp only [List.nil_append]
+        exact matchInterval_none_bare s _ hne hminus hlit (sepHead_tail after ha rest post hp more)
+    | quoted pre s =>
+      simp only [Syn.WF] at hv
+      simp only [Syn.render, List.append_assoc, List.cons_append]
+      exact matchInterval_none_ws_then hv.1 _ (by decide) (by decide)
+    | interval pre na da nb db =>
+      simp only [Syn.WF] at hv
+      simp only [Syn.render, List.append_assoc, List.cons_append]
+      exact matchInterval_none_ws_then hv.1 _ (by decide) (by decide)
+    | list pre items' post' =>
+      simp only [Syn.WF] at hv
+      simp only [Syn.render, List.append_assoc, List.cons_append]
+      exact matchInterval_none_ws_then hv.1 _ (by decide) (by decide)
+    | record pre fields post' =>
+      simp only [Syn.WF] at hv
+      exact absurd hv.1 (by decide)
 
 end GT.Gap
